@@ -28,6 +28,16 @@ CHECKS = {
         "and a D.C./D.S. at the end of the piece (al Fine); coda forms are checked for validity, totality and copy correctness only.",
         "DESIGN.md section 4 C09",
     ),
+    "C12": (
+        "complete enumeration of the finite domains named in the property against independent twelve-tone / line-of-fifths / Fraction arithmetic",
+        "The domains of the property are finite and are enumerated completely: all steps x alterations x octaves, all MIDI pitches, every "
+        "note-name string of the grammar, fifths -12..12 x accepted and unknown modes, symbolic types x dots x ratios x divisions, tempo units, "
+        "tuplet type pairs, interval classes, clef and mode codes, and tick conversion on a millisecond grid for ppq/mpq pairs as Python "
+        "numbers, numpy scalars and arrays. Each value is compared with an independent reference and inverses/rejections are checked.",
+        "Trusted: reference arithmetic in checks/c12.py (C4=60, line of fifths, Fraction tick counts); exact half-tick ties accept either "
+        "neighbour; float32 scalars and negative times are outside the quantifier.",
+        "DESIGN.md section 4 C12",
+    ),
     "C20": (
         "exhaustive enumeration of call sequences (depth 2) over an object family + stateless enumeration of all interleavings of iteration clients",
         "Every ordered pair (and every repetition) of read-only entry points is executed on every object of an enumerated family; "
